@@ -40,7 +40,17 @@ def h_recover(ctx, n, rho, m, cap_extra, variant, sym_factor):
     for the rank-rho matrix L R it returns (L S^-1, S R), S invertible."""
     d = len(n)
     T = ctx.tt('t', n, rho)
-    I, idx, idx_many = teneva.sample_tt(n, r=m, seed=_Gen(variant))
+    if variant == 'forked':
+        # every outcome of the Latin-hypercube draws (generator stub, forking); concrete twin: a real generator
+        if is_sym(ctx):
+            from symtt.stubs_rng import StubGenerator
+            g = StubGenerator('lhs')
+            g.perm = 'identity'
+        else:
+            g = 5
+        I, idx, idx_many = teneva.sample_tt(n, r=m, seed=g)
+    else:
+        I, idx, idx_many = teneva.sample_tt(n, r=m, seed=_Gen(variant))
     y = np.array([ref_get(T, tuple(int(x) for x in i)) for i in I], dtype=T[0].dtype)
     cap = m + cap_extra
     if is_sym(ctx):
@@ -85,6 +95,12 @@ def h_recover(ctx, n, rho, m, cap_extra, variant, sym_factor):
     ctx.claim('finite', finite(ctx, Z))
     ctx.claim('ranks_le_cap', all(G.shape[2] <= cap for G in Z))
     ctx.claim('recovers_target', ctx.all_eq(ref_full(Z), ref_full(T)))
+    y_ref = np.array([ref_get(T, tuple(int(x) for x in i)) for i in I], dtype=T[0].dtype)
+    ctx.claim('sample_values_untouched', ctx.all_eq(y, y_ref))
+    if not is_sym(ctx):
+        # same sample array used again (e.g. to try another cap): same answer
+        Z2 = teneva.svd_incomplete(I, y, idx, idx_many, e=1e-10, r=cap + 1)
+        ctx.claim('second_call_on_same_samples', ctx.all_eq(ref_full(Z2), ref_full(T)))
     ctx.canary('canary', ctx.all_eq(ref_full(Z), ref_full(T) * 2))
 
 
@@ -97,6 +113,7 @@ def instances(tier):
     if not quick:
         cfg += [([3, 3, 3], 2, 2, 0, 'first', False), ([3, 3], 2, 3, 0, 'mixed', False), ([3, 3], 2, 2, 1, 'last', True),
                 ([2, 2, 2, 2], 1, 1, 0, 'first', False), ([3, 3, 3], 2, 2, 1, 'last', False)]
+    cfg += [([3, 3], 2, 2, 0, 'forked', False), ([2, 3], 1, 1, 0, 'forked', False)]
     for n, rho, m, ce, var, sf in cfg:
         out.append({'func': 'h_recover', 'params': {'n': n, 'rho': rho, 'm': m, 'cap_extra': ce, 'variant': var,
                                                     'sym_factor': sf}, 'opts': G})
